@@ -82,6 +82,14 @@ func runC04(c *core.Ctx) {
 			return
 		}
 		c04one(c, spec, pkt, pb)
+		// the same *Packet is modified and marshalled again (a forwarder rewriting a header it has already
+		// sent once): anything the packet remembers from the first MarshalTo is now part of its history
+		for gen := 0; gen < 2 && len(c.Viol) == 0 && t.Chance(1, 3); gen++ {
+			if c04mutate(c, spec, pkt) {
+				c.Probe("re-marshal-after-modification")
+				c04one(c, spec, pkt, pb)
+			}
+		}
 		pb.inUse = true
 		pb.gen++
 		loop.After(int64(1+t.Intn(5000)), func() { pb.inUse = false; c.Ev("release") })
@@ -262,4 +270,56 @@ func b2u(b bool) uint64 {
 		return 1
 	}
 	return 0
+}
+
+// c04mutate changes the packet and its model in step, through the public API / exported fields.
+func c04mutate(c *core.Ctx, spec *pktSpec, pkt *rtp.Packet) bool {
+	t := c.T
+	switch t.Intn(4) {
+	case 0: // replace an extension value by one of another legal length (SetExtension's update-in-place path)
+		if len(spec.exts) == 0 {
+			return false
+		}
+		j := t.Intn(len(spec.exts))
+		var n int
+		switch spec.profile {
+		case profOneByte:
+			n = 1 + t.Intn(16)
+		case profTwoByte:
+			n = t.Intn(256)
+		default:
+			n = 4 * t.Intn(40)
+		}
+		nv := t.Bytes(n)
+		var err error
+		if c.Guard("rtp.Header.SetExtension", func() { err = pkt.SetExtension(spec.exts[j].id, append([]byte{}, nv...)) }) || err != nil {
+			return false
+		}
+		spec.exts[j].val = nv
+	case 1: // the CSRC list grows or shrinks (exported field)
+		if len(spec.csrc) < 15 && t.Bool() {
+			v := uint32(t.Draw(1 << 32))
+			spec.csrc = append(spec.csrc, v)
+			pkt.CSRC = append(pkt.CSRC, v)
+		} else if len(spec.csrc) > 0 {
+			spec.csrc = spec.csrc[:len(spec.csrc)-1]
+			pkt.CSRC = pkt.CSRC[:len(pkt.CSRC)-1]
+		} else {
+			return false
+		}
+	case 2: // another payload
+		spec.payload = t.Bytes(t.Intn(64))
+		pkt.Payload = append([]byte{}, spec.payload...)
+	case 3: // an element is deleted
+		if len(spec.exts) == 0 || spec.profile == profLegacy {
+			return false
+		}
+		j := t.Intn(len(spec.exts))
+		var err error
+		if c.Guard("rtp.Header.DelExtension", func() { err = pkt.DelExtension(spec.exts[j].id) }) || err != nil {
+			return false
+		}
+		spec.exts = append(spec.exts[:j:j], spec.exts[j+1:]...)
+	}
+	return true
 }
